@@ -284,6 +284,23 @@ def run(tier, replay=None):
                        "program.mro": __import__("mro").render(p, stage_lang="comp"),
                        "trace.ndjson": "\n".join(json.dumps(e) for e in r["events"]) + "\n"},
         })
+    # every input of a job is the same in the resumed run as in the uninterrupted one: the chunk
+    # definitions a join is handed (besides its arguments and the chunk outputs, judged above)
+    ncdefs = 0
+    for (p, k, sig), r in zip(cases, results):
+        ref_cd = {e["job"]: e.get("cdefs", "") for e in refs[p["name"]][2] if e.get("ev") == "StageBegin" and e.get("cdefs")}
+        for e in r["events"]:
+            if e.get("ev") == "StageBegin" and e.get("cdefs") and e["job"] in ref_cd:
+                ncdefs += 1
+                if e["cdefs"] != ref_cd[e["job"]]:
+                    viols.append({
+                        "prop": "C05",
+                        "key": "C05:%s:%s:join-inputs-differ:%s" % (p["name"], sig, e["job"]),
+                        "what": "C05 program %s, %s after mrp's effect %d: the join %s is handed other chunk definitions than in the uninterrupted run: %s, there %s" % (
+                            p["name"], sig, k, e["job"], e["cdefs"][:300], ref_cd[e["job"]][:300]),
+                        "replay": {"case.json": json.dumps({"program": p["name"], "k": k, "sig": sig}),
+                                   "program.mro": __import__("mro").render(p, stage_lang="comp"),
+                                   "trace.ndjson": "\n".join(json.dumps(x) for x in r["events"]) + "\n"}})
     # a fork of a mapped stage has failed, an earlier one still runs, mrp is killed, restarted
     fault_report = []
     for pname, fkey, skey in (("map_dyn2", "TOP.A[1]/main/0", "TOP.A[0]/main/0"), ("map_static", "TOP.A[1]/main/0", "TOP.A[0]/main/0"),
@@ -325,6 +342,7 @@ def run(tier, replay=None):
     vlib.write_evidence("C05", tier, "model_checking", {
         "states": mstates + tlc.distinct, "transitions": mtrans + tlc.generated,
         "traces_validated_against_impl": len(cases),
+        "join_inputs_compared_with_uninterrupted_run": ncdefs,
         "samples": [{"program": cases[0][0]["name"], "effect": cases[0][1], "signal": cases[0][2],
                      "exit_status": [str(results[0]["rc1"]), str(results[0]["rc2"])],
                      "events_before_crash": results[0]["n1"]}] if cases else [],
